@@ -329,6 +329,7 @@ func checkC16(w *World) {
 	})
 	w.check(P, "R16.3", "numbers are decoded to float64", pull.Pos(), !useNumber, fmt.Sprintf("Decoder.UseNumber is called: %v (then 1.0, 1e2, 1.50 keep their source spelling instead of the shortest numeral that reads back to the same double)", useNumber))
 	w.floor(P, "R16.3", 5)
+	w.checkJsonScheduling(P, pull)
 }
 
 func checkC17(w *World) {
